@@ -260,8 +260,22 @@ def lay_parquet(content, rng, style):
     return pq.read_table(buf)["c"]
 
 
+def lay_first_field_fresh(content, rng, style):
+    """a slice whose FIRST field was rebuilt afresh (what replacing that field's values on a sliced column leaves): the
+    first field's lists start at position 0 of their own buffer, the other fields' further into theirs"""
+    ca = lay_slice(content, rng, style)
+    ch = ca.chunk(0)
+    if len(ch) == 0 or ch.type.num_fields < 2:
+        return ca
+    kids = [ch.field(i) for i in range(ch.type.num_fields)]
+    kids[0] = pa.array(kids[0].to_pylist(), type=kids[0].type)
+    out = pa.StructArray.from_arrays(kids, names=[f.name for f in ch.type], mask=ch.is_null())
+    return pa.chunked_array([out], type=ca.type)
+
+
 LAYOUTS = {
     "fresh": lay_fresh,
+    "first_field_fresh": lay_first_field_fresh,
     "parquet": lay_parquet,
     "rebuilt_slice": lay_rebuilt_slice,
     "lib_slice_view": lay_lib_slice_view,
